@@ -478,8 +478,21 @@ fn step_view<'a>(v: TensorView<'a, i32>, r: RefArray, op: &Op, rest: &[Op], ctx:
     }
     match op {
         Op::Slice { items, api } => {
-            let ritems: Vec<RItem> =
+            let mut ritems: Vec<RItem> =
                 items.iter().enumerate().map(|(d, it)| resolve_item(it, shape.get(d).copied().unwrap_or(1))).collect();
+            if *api == SliceApi::StaticNd && (nd == 2 || nd == 3) {
+                // bring the request into the form a static-rank tuple can express:
+                // exactly nd items, only the first may be an index
+                ritems.truncate(nd);
+                while ritems.len() < nd {
+                    ritems.push(RItem::Range { start: 0, end: None, step: 1 });
+                }
+                for it in ritems.iter_mut().skip(1) {
+                    if let RItem::Index(i) = *it {
+                        *it = RItem::Range { start: i, end: if i == -1 { None } else { Some(i + 1) }, step: 1 };
+                    }
+                }
+            }
             let sitems: Vec<SliceItem> = ritems.iter().map(to_slice_item).collect();
             if ritems.iter().any(|i| matches!(i, RItem::Range { step, .. } if *step < 0)) {
                 ctx.label("slice:negative-step");
@@ -1247,7 +1260,7 @@ fn main() {
     ck.assume("after a panic of an in-place operation on an owned tensor the tensor is not inspected further");
     ck.set_threads(16);
 
-    ck.prop("chains", ck.pick(60_000, 3_000_000), || case(false), oracle);
-    ck.prop("chains-special", ck.pick(12_000, 400_000), || case(true), oracle);
+    ck.prop("chains", ck.pick(300_000, 6_000_000), || case(false), oracle);
+    ck.prop("chains-special", ck.pick(60_000, 1_000_000), || case(true), oracle);
     ck.finish();
 }
